@@ -94,7 +94,13 @@ META = {
         "lines local the text is joined from (the normalising length must then be that of the WHOLE file's lines); the rST set-aside "
         "bracket in a @contextmanager; a copy of the rest of a block whose head is popped before it is handed on (must be counted). "
         "R8: a value returned by a package function that was given a line (L1/P kind) is not stored in a mapping that outlives the call "
-        "(module global, attribute, document/env) under a key that omits that line - a replay would carry the first occurrence's lines."
+        "(module global, attribute, document/env) under a key that omits that line - a replay would carry the first occurrence's lines. "
+        "R13 one offset contract: the content_offset every directive is instantiated with (constant offsets of whole included files aside) "
+        "is either relative to the directive line or absolute (contains an L1/P anchor), all instantiations alike; in every mock-state "
+        "callback that receives such an offset (EXTERNAL_PARAMS kind OFF: nested_parse, block_quote, parse_directive_block) each line "
+        "built additively from the received offset (.line / get_source_and_line / line= / 1-based line arguments / the line argument of "
+        "nested_render_text) adds the directive line exactly when the producer did not: anchors(producer) + anchors(consumer) == 1, so "
+        "switching the contract in the producer and only some of the consumers is caught at the consumers left behind."
     ),
     "not_decided": (
         "the numeric truth of each line for all nestings (only unit/base/convention/pairing consistency); whether the token a node is "
@@ -118,6 +124,7 @@ META = {
 }
 
 R1, R2, R3, R4, R5, R6, R7, R8, R9, R10, R11, R12 = "C04.R1", "C04.R2", "C04.R3", "C04.R4", "C04.R5", "C04.R6", "C04.R7", "C04.R8", "C04.R9", "C04.R10", "C04.R11", "C04.R12"
+R13 = "C04.R13"
 
 
 # ---------------------------------------------------------------------------
@@ -3280,7 +3287,121 @@ def r12_env_map_records(corpus: Corpus, rep: Report, tier: str):
         pass
 
 
-RULES = [r1_stamping, r2_line_kinds, r3_shift_once, r4_lossy_round_trip, r5_source_path, r6_body_offset_pairing, r7_start_accumulator, r8_line_free_cache, r9_anchor_fixed, r10_line_model, r11_directive_boundaries, r12_env_map_records]
+# ---------------------------------------------------------------------------
+# R13 one content-offset contract: producer (directive instantiation) and every consumer (mock state callbacks) agree on who adds
+# the directive line
+
+
+def _line_exprs_of(corpus: Corpus, fi: FunctionInfo) -> list[ast.expr]:
+    """Expressions of ``fi`` that end up as an absolute line: .line stores, get_source_and_line(x), line= keywords, and arguments
+    bound to a 1-based line parameter (docutils callback table) or to the line parameter of nested_render_text / run_directive."""
+    g = get_callgraph(corpus)
+    out: list[ast.expr] = []
+
+    def push(e: ast.expr | None):
+        if e is not None and all(e is not o for o in out):
+            out.append(e)
+
+    for n in sorted((x for x in fi.local_nodes() if isinstance(x, (ast.Assign, ast.Call))), key=lambda x: (x.lineno, x.col_offset)):
+        if isinstance(n, ast.Assign):
+            if any(isinstance(t, ast.Attribute) and t.attr == "line" for t in _store_targets(n)) and len(n.targets) == 1 and isinstance(n.targets[0], ast.Attribute) and not isinstance(n.value, ast.Call):
+                push(n.value)
+            continue
+        if isinstance(n.func, ast.Attribute) and n.func.attr == "get_source_and_line" and n.args:
+            push(n.args[0])
+            continue
+        push(kwarg(n, "line"))
+        for t in g.resolve_call(n, fi):
+            if isinstance(t, FunctionInfo):
+                for pn in t.params:
+                    ext = EXTERNAL_PARAMS.get((t.fq, pn))
+                    if (ext and ext[0] == L1) or (t.fq in LINE_SINKS and LINE_SINKS[t.fq][1] == pn):
+                        push(_arg_for(n, t, pn))
+    return out
+
+
+@rule(R13)
+def r13_offset_contract(corpus: Corpus, rep: Report, tier: str):
+    rep.rule(R13, "the content offset a directive is instantiated with and every mock-state callback that turns a received offset into a line agree on who adds the directive line: it is added exactly once along producer -> consumer")
+    K = _kinds(corpus)
+    used: dict[str, int] = {}
+
+    def uniq(k: str) -> str:
+        used[k] = used.get(k, 0) + 1
+        return k if used[k] == 1 else f"{k}#{used[k]}"
+
+    # ---- producers: directive instantiations (content_offset=, lineno=, state=) whose offset is not a constant (whole included file)
+    prod: list[tuple[int, str, str]] = []  # (anchors in the offset, site, text)
+    for fi in _funcs(corpus):
+        for n in sorted((x for x in fi.local_nodes() if isinstance(x, ast.Call)), key=lambda x: (x.lineno, x.col_offset)):
+            co = kwarg(n, "content_offset")
+            if co is None or kwarg(n, "lineno") is None or kwarg(n, "state") is None:
+                continue
+            site = fi.module.site(co)
+            try:
+                terms, _const = K.linear(co, fi)
+            except _Unknown as e:
+                rep.error(R13, f"{site}: content_offset `{short(co, 40)}` of the directive instantiation not understood ({e})")
+                continue
+            if not terms:
+                continue  # constant: the content is a whole file, nothing relative to a directive line
+            if not any(kk == OFF for _s, kk, _t in terms):
+                rep.error(R13, f"{site}: content_offset `{short(co, 40)}` contains no content-offset term; cannot tell its contract")
+                continue
+            prod.append((sum(s for s, kk, _t in terms if kk in (L1, PK)), site, short(co, 40)))
+    if not prod:
+        rep.error(R13, "no directive instantiation with a computed content_offset= found (run_directive)")
+        return
+    if len({a for a, _s, _t in prod}) != 1:
+        a0 = prod[0]
+        other = next(p for p in prod if p[0] != a0[0])
+        rep.violation(R13, "package|directive instantiations agree on the content_offset contract", other[1], f"`content_offset={other[2]}` ({'absolute' if other[0] else 'relative to the directive'}) and `content_offset={a0[2]}` at {a0[1]} ({'absolute' if a0[0] else 'relative to the directive'}) follow different contracts, but the same mock-state callbacks consume both")
+        return
+    p_anch, p_site, p_text = prod[0]
+    contract = "absolute (contains the directive line)" if p_anch else "relative to the directive line"
+    # ---- consumers: the callbacks docutils directives hand their content offset to
+    n_judged = 0
+    for (fq, oparam), (kd, _why) in EXTERNAL_PARAMS.items():
+        if kd != OFF:
+            continue
+        fi = corpus.func(fq.replace("myst_parser.", "", 1))
+        if oparam not in fi.params:
+            rep.error(R13, f"{fq}: offset parameter `{oparam}` of the table not found")
+            continue
+        for e in _line_exprs_of(corpus, fi):
+            names = _names(e)
+            for nm in list(names):
+                if _owner_of_param(fi, nm) is None and len(_defs(fi, nm)) == 1:
+                    for _s, v_, h_ in _defs(fi, nm):
+                        if h_ == "assign" and v_ is not None:
+                            names |= _names(v_)
+            if oparam not in names:
+                continue
+            site = fi.module.site(e)
+            try:
+                terms, const = K.linear(e, fi)
+            except _Unknown as ex:
+                rep.error(R13, f"{site}: line `{short(e, 50)}` built from the content offset `{oparam}` not understood ({ex})")
+                continue
+            if not any(kk == OFF and t == oparam for _s, kk, t in terms):
+                continue  # the offset does not enter additively (index, helper call): not judged here
+            c_anch = sum(s for s, kk, _t in terms if kk in (L1, PK))
+            norm = " + ".join(sorted(f"{kk}({t})" for _s, kk, t in terms)) + (f" {const:+d}" if const else "")
+            k = uniq(f"{_key_owner(corpus, fi).fq}|offset contract|{norm}")
+            n_judged += 1
+            total = p_anch + c_anch
+            if total == 1:
+                rep.ok(R13, k, site, f"content_offset={p_text} is {contract}; directive line added {'here' if c_anch else 'by the producer'}")
+            elif total > 1:
+                rep.violation(R13, k + " anchored twice", site, f"`{short(e, 50)}` adds the directive line to `{oparam}`, but the offset directives are instantiated with (`content_offset={p_text}` at {p_site}) is already {contract}: the directive line is counted twice, so the node/warning line is about twice the true line (block quote of an {{epigraph}} on line 6: reported 12+)")
+            else:
+                rep.violation(R13, k + " never anchored", site, f"`{short(e, 50)}` uses `{oparam}` as if it were absolute, but the offset directives are instantiated with (`content_offset={p_text}` at {p_site}) is {contract}: the directive line is never added and every line derived here is relative to the directive")
+    rep.expect_min(R13, 1, "lines built from a received content offset in the mock-state callbacks")
+    if n_judged == 0:
+        rep.error(R13, "no line built additively from a received content offset found in nested_parse / block_quote / parse_directive_block")
+
+
+RULES = [r1_stamping, r2_line_kinds, r3_shift_once, r4_lossy_round_trip, r5_source_path, r6_body_offset_pairing, r7_start_accumulator, r8_line_free_cache, r9_anchor_fixed, r10_line_model, r11_directive_boundaries, r12_env_map_records, r13_offset_contract]
 
 
 # ---------------------------------------------------------------------------
@@ -3805,4 +3926,34 @@ def mutants(corpus: Corpus):
         add("c04-revert-front-matter-field-source", R5, base, st.value, "value", "field_node.source")
     else:
         out.append(("c04-revert-front-matter-field-source", stale))
+
+    # ---- R13: producer and consumers of the content offset add the directive line exactly once between them
+    f = base.func("DocutilsRenderer.run_directive")
+    inst = find_node(f, lambda n: isinstance(n, ast.Call) and kwarg(n, "content_offset") is not None and kwarg(n, "lineno") is not None and kwarg(n, "state") is not None)
+    co = kwarg(inst, "content_offset") if inst is not None else None
+    ln = kwarg(inst, "lineno") if inst is not None else None
+    relative = co is not None and ln is not None and unparse(ln) not in unparse(co)
+    if relative:
+        # the contract switched to docutils' absolute offset in the producer only: every consumer still adds the directive line
+        add("c04-content-offset-made-absolute-consumers-left-behind", R13, base, co, f"{unparse(ln)} + {unparse(co)}", "anchored twice")
+    else:
+        out.append(("c04-content-offset-made-absolute-consumers-left-behind", "content_offset of the directive instantiation is already absolute (or the instantiation changed shape)"))
+    f = mk.func("MockState.block_quote")
+    gs = find_node(f, lambda n: isinstance(n, ast.Call) and isinstance(n.func, ast.Attribute) and n.func.attr == "get_source_and_line" and n.args)
+    a = gs.args[0] if gs is not None else None
+    anchor_terms = [t for t in (_sum_terms(a) if a is not None else []) if isinstance(t, ast.Attribute) and t.attr == "_lineno"]
+    if relative and a is not None and anchor_terms:
+        rest = [unparse(t) for t in _sum_terms(a) if t is not anchor_terms[0]]
+        add("c04-block-quote-line-without-directive-line", R13, mk, a, " + ".join(rest), "block_quote|offset contract")
+    else:
+        out.append(("c04-block-quote-line-without-directive-line", "block quote line no longer adds the directive line itself"))
+    f = mk.func("MockState.nested_parse")
+    c = _nrt_call(f)
+    a = arg_or_kw(c, 1, "lineno") if c else None
+    anchor_terms = [t for t in (_sum_terms(a) if a is not None else []) if isinstance(t, ast.Attribute) and t.attr == "_lineno"]
+    if relative and a is not None and anchor_terms and len(_sum_terms(a)) > 1:
+        rest = [unparse(t) for t in _sum_terms(a) if t is not anchor_terms[0]]
+        add("c04-nested-parse-renders-at-bare-offset", R13, mk, a, " + ".join(rest), "nested_parse|offset contract")
+    else:
+        out.append(("c04-nested-parse-renders-at-bare-offset", "nested_parse no longer adds the directive line itself"))
     return out
